@@ -86,7 +86,7 @@ theorem legacyDye_rt (r : LegacyColorDyeTableRow) (hr : wfLegacyDye r = true) (t
   simp only [LegacyColorDyeTableRow.mk.injEq]
   refine ⟨?_, ?_, ?_, ?_, ?_, ?_⟩
   all_goals (try simp only [bne])
-  all_goals bv_decide
+  all_goals bv_decide (timeout := 300)
 
 theorem dawntrailDye_rt (d : DawntrailDyeF) (hd : wfDawntrailDye d = true) (t : Bytes) :
     dawntrailColorDyeTableRow (putU32le (packDawntrailDye d) ++ t) = .ok (d.row, t) := by
@@ -98,7 +98,7 @@ theorem dawntrailDye_rt (d : DawntrailDyeF) (hd : wfDawntrailDye d = true) (t : 
   simp only [DawntrailColorDyeTableRow.mk.injEq]
   refine ⟨?_, ?_, ?_, ?_, ?_, ?_, ?_, ?_, ?_, ?_, ?_, ?_, ?_, ?_⟩
   all_goals (try simp only [bne])
-  all_goals bv_decide
+  all_goals bv_decide (timeout := 300)
 
 /-! ### small records -/
 
@@ -133,7 +133,7 @@ theorem tableFlags_rt (tf : UInt32) (ar t : Bytes) (har : 4 + ar.length < 256) :
   rw [List.append_assoc] at this
   simp only [tableFlags, bind_apply, this]
   simp only [putU32le, List.cons_append, List.nil_append, pure_apply]
-  congr 2; bv_decide
+  congr 2; bv_decide (timeout := 300)
 
 /-! ### heap scans -/
 
